@@ -58,7 +58,7 @@ func clips(s string) string {
 func main() {
 	h := hz.New()
 	switch h.Prop {
-	case "C03":
+	case "C03", "C07":
 		runC03(h)
 	case "C14":
 		runC14(h)
